@@ -533,5 +533,19 @@ func costFamilies() []costFamily {
 	fs = append(fs, c09Fam("zero-len-cycle", "v4", func(n int) []byte { return c09ZeroLen4(n, true) }))
 	fs = append(fs, c09Fam("one-byte", "v4", c09OneByte4))
 	fs = append(fs, c09Fam("pads", "v4", c09Pads4))
+	// the sub-option decoder of DHCPv4 option 82 as an entry point of its own
+	fs = append(fs, c09Fam("relay-repeat", "v4relay", func(n int) []byte {
+		var out []byte
+		for len(out)+257 <= n && len(out) < 60000 {
+			out = append(out, 1, 255)
+			out = append(out, make([]byte, 255)...)
+		}
+		return out
+	}))
+	// NOT checked: decoding again and again into ONE receiver value.  The unchanged
+	// tree accumulates there by construction (dhcpv4.Options.FromBytes and dhcpv6
+	// Options.FromBytes append to a non-nil receiver), so C09 - a statement about the
+	// value obtained by decoding a byte string - is read for fresh receivers
+	// (seeded change C09-7 made RelayOptions.FromBytes behave like those two).
 	return fs
 }
